@@ -11,6 +11,11 @@ NA = {
 }
 
 CHECKS = {
+    'C12': dict(
+        category='other', design_ref='DESIGN.md §5 C12',
+        technique='abstract interpretation of the escape branch of both decoders for every ASCII escape character, compared with the specification table and with the lexer ATN (decoded from the generated source)',
+        text='Only the escape-table clause: for each decoder and each ASCII character the code after a backslash is classified on every path (appends one constant code point / n hex digits / octal / error); the table must equal the CEL specification and accept exactly what the lexer ATN admits; helpers use radix 16/8, the stated digit counts and the 0o377 bound; bytes reject \\u/\\U; raw strings must not process backslashes; invalid code points are errors. Two disagreements pinned by existing tests are known findings. Delimiter handling is not decided.',
+        note='reference table tables/reference/escapes.json and the embedded lexer ATN trusted'),
     'C20': dict(
         category='other', design_ref='DESIGN.md §5 C20',
         technique='provenance/signature-table rules over extractors, registry and call site + rustc compile(-fail) witnesses for arities and parameter types',
